@@ -146,7 +146,12 @@ class Env:
         hit = getattr(self, 'cache', {}).pop(self._key(fname, tuple(args), kw), None)
         if hit is not None:
             return hit
-        return getattr(Q, fname)(self.ctx, *args, **kw)
+        t0 = time.time()
+        r = getattr(Q, fname)(self.ctx, *args, **kw)
+        if os.environ.get('VERIF_TRACE'):
+            sys.stderr.write('[trace] %s%r %s: %s in %.1fs\n' % (fname, args, kw or '', r.result, time.time() - t0))
+            sys.stderr.flush()
+        return r
 
 
 class ObResult:
@@ -209,7 +214,18 @@ def ob_add(rep, ob):
 def decide_unit_obligation(rep, qfun, ctx, *args, **kw):
     """obligations over units of >= 2 code points: first for ARBITRARY code points (strongest; unsat on a correct tree);
     if that is sat, ask again for units the public API can produce, so that a reported counterexample is reachable"""
+    t0 = time.time()
     o = qfun(ctx, *args, **kw)
+    if os.environ.get('VERIF_TRACE'):
+        sys.stderr.write('[trace] %s%r %s: %s in %.1fs\n' % (qfun.__name__, args, kw or '', o.result, time.time() - t0))
+        sys.stderr.flush()
+    if o.result == 'inconclusive' and 'grapheme clusters of arbitrary code points' in str(o.inconclusive):
+        # the code under check asks for grapheme clusters of the unit: decidable only for units that ARE one cluster
+        d = o.as_dict()
+        d['result'] = 'superseded'
+        d['note'] = 'not decidable for arbitrary code points (the code segments the unit); decided for units that are one grapheme cluster (next entry)'
+        rep.obligations.append(d)
+        return ob_add(rep, qfun(ctx, *args, realisable=True, **kw))
     if o.result == 'sat':
         d = o.as_dict()
         d['result'] = 'superseded'
@@ -868,7 +884,7 @@ def check_c07(rep):
                      kept and (invalid or panics))
     # escaping of metacharacters: every unit becomes text that denotes exactly that literal
     single = []
-    shapes = ['c', 'cc', 'tc', 'ct', 'tt'] + (['ccc', 'tcc', 'ctc', 'cct'] if rep.tier == 'thorough' else [])
+    shapes = ['c', 'cc', 'tc', 'ct', 'tt'] + (['tcc', 'ctc', 'cct'] if rep.tier == 'thorough' else [])     # 'ccc' (three arbitrary code points) did not finish in 2 h
     for shape in shapes:
         if len(single) >= env.ctx.cap('Q07e'):
             break
@@ -1013,7 +1029,8 @@ def check_c10(rep):
                      'and test cases.  (One inductive step from an arbitrary state, so it covers setter histories of any length.)')
     rep.statement += ('  (C) hash seeds: the whole of build() (from MIR) is run under three iteration-order policies for every HashSet / HashMap '
                       '(insertion order, reversed, rotated by one) and prints the same text, for 2-3 test cases of 1-2 letters (default settings and '
-                      'without anchors); the self-check block of RegExp::from as a unit (expression handed over by stubs, see C08) likewise.')
+                      'without anchors) and, with conversion of word characters, for 4 test cases ":"x, ":"y, ";"z, ";"w with x..w from 0-9 : ; A-Z a-z (two '
+                      'states with two outgoing edges each whose raw order and label order differ); the self-check block of RegExp::from as a unit (expression handed over by stubs, see C08) likewise.')
     rep.outside = ['hash iteration orders other than the three policies (3 of n! per container)',
                    'threads (the code has no shared state: nothing to schedule)', 'lists of more than 3 test cases or test cases longer than 2 code points; test cases containing U+03A3',
                    'Kani cannot execute the sort of heap strings (DESIGN 3); this part rests on mirsym alone']
@@ -1058,11 +1075,19 @@ def check_c10(rep):
             classify(rep, known, po.qid, key, what, {'inputs': {'cases': cases_, 'settings': st_}, 'observed': outs_}, len(set(outs_)) > 1)
     # (C) per-process hash seeds: the printed text does not depend on the iteration order of any HashSet / HashMap
     B_ = {'no_start_anchor': True, 'no_end_anchor': True}
-    hspecs = [((2, 1), {}), ((1, 1, 1), {}), ((2, 1), B_)] + ([((2, 2), {}), ((2, 2), B_), ((2, 1), {'repetitions': True}), ((3,), {'repetitions': True})] if rep.tier == 'thorough' else [])
+    # templates for the class-conversion case: two one-character prefixes ':' and ';' (non-word, no metacharacter) with two continuations each
+    FX4 = {(0, 0): ':', (1, 0): ':', (2, 0): ';', (3, 0): ';'}
+    FX6 = dict(list(FX4.items()) + [((0, 1), ':'), ((3, 1), ':')])
+    W_ = {'words': True}
+    hspecs = [((2, 1), {}), ((1, 1, 1), {}), ((2, 1), B_), ((2, 2, 2, 2), W_, 'alnum-colon', False, FX6)] + \
+             ([((2, 2), {}), ((2, 2), B_), ((2, 1), {'repetitions': True}), ((3,), {'repetitions': True}), ((2, 2, 2, 2), W_, 'alnum-colon', False, FX4),
+               ((2, 2, 2, 2), {'digits': True}, 'alnum-colon', False, FX6)] if rep.tier == 'thorough' else [])
+    hspecs = [h_ if len(h_) == 5 else h_ + ('letters', False, None) for h_ in hspecs]
     uspecs = [(SK['xx?|xx'], B_, 'same')] + ([(SK['x(xx)?|(xx|x)x'], B_, 'same'), (SK['xx?|xx'], {'no_end_anchor': True}, 'same'), (SK['x|xx'], B_, 'same')] if rep.tier == 'thorough' else [])
-    env.prefetch([('q10h', (lens, stg), {}) for lens, stg in hspecs] + [('q08u', (sk, stg, sec, None, True), {}) for sk, stg, sec in uspecs])
-    for lens, stg in hspecs:
-        ho = ob_add(rep, env.run('q10h', lens, stg))
+    env.prefetch([('q10h', h_, {}) for h_ in hspecs] + [('q08u', (sk, stg, sec, None, True), {}) for sk, stg, sec in uspecs])
+    for h_ in hspecs:
+        lens, stg = h_[0], h_[1]
+        ho = ob_add(rep, env.run('q10h', *h_))
         if ho.result != 'sat':
             continue
         for m in ho.verdict.models:
@@ -1165,13 +1190,15 @@ def replay_c10(env, rec):
 def check_c12(rep):
     rep.statement = ('(1) obtain_input (bin crate MIR, process environment = symbolic stubs constrained by their contracts) returns exactly the '
                      'test cases the user supplied on every channel: arguments; "-" with piped stdin (the lines BufRead::lines delivers, untouched); '
-                     '-f FILE with LF or CRLF line endings, with or without a final line ending; a failing read ends in Err -- for 2 (3) lines of '
-                     '2 arbitrary code points. (2) handle_input: for every combination of the 16 Boolean CLI fields and both (positive) thresholds the builder '
+                     '-f FILE with LF or CRLF line endings, with or without a final line ending; -f - with the file name on piped stdin (with or without a '
+                     'trailing line feed; the file that is opened is the one named); a failing read ends in Err -- for 2 (3) lines of '
+                     '2 arbitrary code points. (1b) the library\'s from_file (lib MIR, fs stub) holds exactly the lines of the file, LF or CRLF, with or '
+                     'without a final line ending, and panics with the documented message when the file is missing. (2) handle_input: for every combination of the 16 Boolean CLI fields and both (positive) thresholds the builder '
                      'that reaches build() carries exactly the documented settings (each flag <-> its config field; start anchor '
                      'disabled iff --no-start-anchor or --no-anchors, same for end; surrogates iff --escape and --with-surrogates; '
                      'thresholds copied; build() called exactly once); no panic for input vectors of length 0, 1, 2 -- an empty '
                      'list and every io::ErrorKind end in Err, never in a panic.')
-    rep.outside = ['the library\'s from_file, the "-f -" channel (file name on stdin), invalid UTF-8 input, the operating system itself',
+    rep.outside = ['invalid UTF-8 input, the operating system itself',
                    'clap\'s own parsing and value parsers', 'that the printed line is the library\'s result (build and print are stubbed)',
                    'input vectors longer than 2 (a symbolic length did not finish, DESIGN 3)']
     rep.assumptions += ['stubs: RegExpBuilder::build records verif_hooks::config_bits and returns an empty string; std::io::_print '
@@ -1184,8 +1211,30 @@ def check_c12(rep):
     bin_text, bi = prep.mir_dump('bin')
     rep.info['bin_mir_lines'] = bi['mir_lines']
     env.ctx.bin_mir = Mir(bin_text, prep.repo())
-    chans = ('args', 'stdin', 'file-lf', 'file-crlf', 'file-lf-final', 'file-crlf-final', 'file-missing')
+    chans = ('args', 'stdin', 'file-lf', 'file-crlf', 'file-lf-final', 'file-crlf-final', 'file-missing', 'file-on-stdin', 'file-on-stdin-nl')
     env.prefetch([('q12i', (ch, 2 if rep.tier == 'quick' else 3, 2), {}) for ch in chans])
+    fvars = ('lf', 'crlf', 'lf-final', 'crlf-final', 'missing')
+    env.prefetch([('q12f', (v_,), {}) for v_ in fvars])
+    for v_ in fvars:
+        fo = ob_add(rep, env.run('q12f', v_))
+        if fo.result != 'sat':
+            continue
+        for m in fo.verdict.models:
+            lines_ = [[m['t%d_%d' % (i, j)] for j in range(2)] for i in range(2)]
+            if v_ == 'missing':
+                classify(rep, known, 'Q12f', 'from_file=missing', 'from_file on a missing file does not panic with the documented message', {'inputs': {'kind': 'from_file', 'variant': v_}}, True)
+                continue
+            sep = [13, 10] if 'crlf' in v_ else [10]
+            content = []
+            for i, l in enumerate(lines_):
+                content += (sep if i else []) + l
+            content += sep if v_.endswith('final') else []
+            got = env.eval([{'op': 'from_file', 'content': content}, {'op': 'build', 'cases': lines_, 'settings': {}}])
+            r0 = got[0].get('ok')
+            bad = not (isinstance(r0, list) and r0[0] == lines_ and r0[1] == got[1].get('ok'))
+            key = 'from_file=%s,lines=%s' % (v_, '|'.join('+'.join(u(x) for x in l) for l in lines_))
+            classify(rep, known, 'Q12f', key, 'from_file on %r holds %s; from() on its lines would hold %s' % (''.join(map(chr, content)), r0, lines_),
+                     {'inputs': {'kind': 'from_file', 'variant': v_, 'content': content, 'lines': lines_}, 'observed': got}, bad)
     for ch in chans:
         o = ob_add(rep, env.run('q12i', ch, 2 if rep.tier == 'quick' else 3, 2))
         if o.result != 'sat':
@@ -1241,6 +1290,23 @@ def replay_channel(env, ch, m):
         if any(0 in l for l in cases):
             return False, 'args=nul', 'an argument with a NUL character cannot be passed to a process', {}
         p = subprocess.run([binp, '--'] + [enc(l).decode('utf-8', 'replace') for l in cases], capture_output=True, stdin=subprocess.DEVNULL)
+    elif ch.startswith('file-on-stdin'):
+        # the file name arrives on stdin; the solver's two path characters become the file's name inside a scratch directory
+        cases = lines_of('t')
+        d = tempfile.mkdtemp()
+        name = ''.join(chr(m.get('p%d' % i, 0x61)) for i in range(2))
+        if '/' in name or '\x00' in name or name in ('..',):
+            return False, 'path=unusable', 'the path %r cannot name a scratch file' % name, {}
+        path = os.path.join(d, name)
+        try:
+            with open(path, 'wb') as f:
+                f.write(b'\n'.join(enc(l) for l in cases))
+            p = subprocess.run([binp, '-f', '-'], input=path.encode('utf-8', 'surrogatepass') + (b'\n' if ch.endswith('-nl') else b''), capture_output=True)
+        except (OSError, UnicodeError, ValueError):
+            return False, 'path=unusable', 'the path %r cannot name a scratch file' % name, {}
+        finally:
+            import shutil
+            shutil.rmtree(d, ignore_errors=True)
     else:
         cases = lines_of('t')
         sep = b'\r\n' if 'crlf' in ch else b'\n'
@@ -1332,6 +1398,12 @@ def replay_c12(env, rec):
         m = {'%s%d_%d' % (tag, i, j): c for i, l in enumerate(cases) for j, c in enumerate(l)}
         bad, _k, what, _r = replay_channel(env, ch, m)
         return bad, what
+    if kind == 'from_file':
+        if rec['inputs'].get('variant') == 'missing':
+            return False, 'from_file on a missing file: not replayable in-process (it panics by design)'
+        got = env.eval([{'op': 'from_file', 'content': rec['inputs']['content']}, {'op': 'build', 'cases': rec['inputs']['lines'], 'settings': {}}])
+        r0 = got[0].get('ok')
+        return not (isinstance(r0, list) and r0[0] == rec['inputs']['lines'] and r0[1] == got[1].get('ok')), 'from_file holds %s' % (r0,)
     args = rec['inputs'].get('args', [])
     if kind == 'empty-file':
         import tempfile
@@ -1810,17 +1882,19 @@ def replay_search(env, cases, settings):
     return bool(partial), what, {'pattern': pat, 'partial': [[c, sp] for c, sp in partial]}
 
 
-SEARCH_SMAP = {'no_start_anchor': 'no_start_anchor', 'no_end_anchor': 'no_end_anchor', 'capture': 'capture_groups', 'repetitions': 'repetitions', 'digits': 'digits'}
+SEARCH_SMAP = {'no_start_anchor': 'no_start_anchor', 'no_end_anchor': 'no_end_anchor', 'capture': 'capture_groups', 'repetitions': 'repetitions', 'digits': 'digits',
+               'words': 'words', 'verbose': 'verbose'}
 
 
 def run_search_obligations(rep, env, known, e2e_specs, unit_specs):
     """C08 clause 2.  e2e_specs: [(lens, settings)] through the whole of build(); unit_specs: [(skeleton, settings, second_ast)] through the
     self-check block of RegExp::from with the automaton stages replaced by an arbitrary expression of that shape"""
     unit_specs = [u_ if len(u_) == 4 else u_ + (None,) for u_ in unit_specs]
-    env.prefetch([('q08s', (lens, settings), {}) for lens, settings in e2e_specs] +
+    env.prefetch([('q08s', (e_[0], e_[1], 'letters', e_[2] if len(e_) == 3 else None), {}) for e_ in e2e_specs] +
                  [('q08u', (sk, settings, second, kinds), {}) for sk, settings, second, kinds in unit_specs])
-    for i_, (lens, settings) in enumerate(e2e_specs):
-        o = ob_add(rep, env.run('q08s', lens, settings))
+    e2e_specs = [e_ if len(e_) == 3 else e_ + (None,) for e_ in e2e_specs]
+    for i_, (lens, settings, runs) in enumerate(e2e_specs):
+        o = ob_add(rep, env.run('q08s', lens, settings, 'letters', runs))
         if o.result != 'sat':
             continue
         nat = {SEARCH_SMAP[k]: True for k, v in settings.items() if v}
@@ -1894,10 +1968,14 @@ def check_c08(rep):
         specs += [((2, 2), 'letters', {'no_start_anchor': True}), ((2, 2), 'letters', {'no_end_anchor': True}), ((1, 1), 'ascii', {'no_end_anchor': True})]
     run_text_obligations(rep, env, known, specs)
     E, S, B = {'no_end_anchor': True}, {'no_start_anchor': True}, {'no_start_anchor': True, 'no_end_anchor': True}
-    e2e = [((1, 1), E), ((2, 1), E), ((2, 1), B), ((2, 1), S), ((2, 2), B)]
+    ER, BR = dict(E, repetitions=True), dict(B, repetitions=True)
+    # with conversion of repetitions: "x", "xy", "zzz" with the third test case one repeated letter (known finding F11 lives here)
+    e2e = [((1, 1), E), ((2, 1), E), ((2, 1), B), ((2, 1), S), ((2, 2), B), ((1, 2, 3), ER, (2,)), ((1, 2, 3), BR, (2,))]
     ED, BD = dict(E, digits=True), dict(B, digits=True)
     unit = [(SK['x|xx'], E, 'same'), (SK['xx?|xx'], E, 'same'), (SK['xx?|xx'], B, 'same'), (SK['xx?|xx'], B, 'literals'), (SK['x(xx)?|(xx|x)x'], E, 'same'),
-            (SK['x(xx)?|(xx|x)x'], BD, 'same', 'ddldlld'), (SK['xx?|xx'], ED, 'same', 'dldd')]
+            (SK['x(xx)?|(xx|x)x'], BD, 'same', 'ddldlld'), (SK['xx?|xx'], ED, 'same', 'dldd'),
+            # verbose mode: the candidates of both DFA stages fail the self-check (their text keeps its indentation), so the last-resort alternation is printed
+            (SK['xx?|xx'], dict(E, verbose=True), 'same'), (SK['x(xx)?|(xx|x)x'], dict(E, verbose=True), 'same')]
     if rep.tier == 'thorough':
         e2e += [((2, 2), E), ((2, 2), S), ((2, 2, 1), E), ((2, 2, 1), B), ((3, 2), E), ((3, 2), B)]
         fam = Q.skeleton_family(int(os.environ.get('VERIF_C08_FAMILY', '5')))
@@ -2300,4 +2378,13 @@ def main(argv):
 
 
 if __name__ == '__main__':
-    sys.exit(main(sys.argv[1:]))
+    try:
+        code = main(sys.argv[1:])
+    except SystemExit:
+        raise
+    except BaseException as e:       # a crash of the machinery is "could not decide", never a verdict
+        import traceback
+        traceback.print_exc()
+        print('INCONCLUSIVE machinery error: %s: %s' % (type(e).__name__, str(e)[:300]))
+        code = 2
+    sys.exit(code)
